@@ -17,7 +17,9 @@ func C12_frame_helpers() {
 	}
 	n := vChoose("n", 4)
 	p := vBytes("p", n)
-	f := ws.Frame{Header: ws.Header{Fin: vBool("fin"), OpCode: ws.OpCode(1 + vChoose("op", 2)), Rsv: vU8("rsv") & 3, Length: int64(n)}, Payload: p}
+	f := ws.Frame{Header: ws.Header{Fin: vBool("fin"), OpCode: ws.OpCode(1 + vChoose("op", 2)), Rsv: vU8("rsv") & 3, Length: int64(n),
+		// (masking information a caller put into the header before compressing is part of "the same header")
+		Masked: vBool("masked"), Mask: [4]byte{vU8("m0"), vU8("m1"), vU8("m2"), vU8("m3")}}, Payload: p}
 	c, err := h.CompressFrame(f)
 	if !f.Header.Fin {
 		vAssert(err != nil, "fh.compress_refuses_nonfinal")
@@ -27,6 +29,7 @@ func C12_frame_helpers() {
 	}
 	vAssert(err == nil, "fh.compress_ok")
 	vAssert(vAnd(c.Header.Rsv == f.Header.Rsv|4, vAnd(c.Header.OpCode == f.Header.OpCode, c.Header.Fin)), "fh.header_same_but_rsv1")
+	vAssert(vAnd(c.Header.Masked == f.Header.Masked, c.Header.Mask == f.Header.Mask), "fh.mask_fields_kept")
 	vAssert(c.Header.Length == int64(len(c.Payload)), "fh.length_is_payload_length")
 	vAssert(vEqBytes(c.Payload, p), "fh.identity_codec_payload_without_tail")
 	d, err := h.DecompressFrame(c)
